@@ -45,7 +45,7 @@ func (r *ResponseFilter) Filter(msg proto.Message) {
 		proto.Reset(msg)
 		return
 	}
-	fmutils.Filter(msg, r.fields.GetPaths())
+	fmutils.Filter(msg, normalizedPaths(r.fields.GetPaths()))
 }
 
 // FilterClone is like Filter but clones and returns a new msg instead of modifying the original.
@@ -62,8 +62,17 @@ func (r *ResponseFilter) FilterClone(msg proto.Message) proto.Message {
 		return clone
 	}
 	clone := proto.Clone(msg)
-	fmutils.Filter(clone, r.fields.GetPaths())
+	fmutils.Filter(clone, normalizedPaths(r.fields.GetPaths()))
 	return clone
+}
+
+// normalizedPaths returns a sorted copy of paths without the paths that are already covered by a
+// shorter path, so that a parent path selects its whole sub-message even if a child path is present too
+// (fmutils would otherwise keep only the child). The caller's slice is not modified.
+func normalizedPaths(paths []string) []string {
+	fm := &fieldmaskpb.FieldMask{Paths: append([]string(nil), paths...)}
+	fm.Normalize()
+	return fm.Paths
 }
 
 type ResponseFilterOption func(*ResponseFilter)
